@@ -136,6 +136,7 @@ class SimNet:
         self.raw_io: list = []  # I/O on an unwrapped socket although TLS is configured
         self.failing: dict = {}  # addrkey -> 'refused' | 'timeout' | 'reset'  (persistent, C13)
         self.sent: list = []  # (call, sockid, bytes) everything handed to sendall and delivered
+        self.rx: list = []  # (call, sockid, bytes) everything returned by recv
         self.owner_classes = ()
         self.nconn = 0
 
@@ -514,6 +515,7 @@ class SimSocket:
         else:
             raise AssertionError(c)
         net.log("recv", self, len(data), tags, self.timeout)
+        net.rx.append((net.call, self.sid, data))
         return data
 
     def close(self):
